@@ -1026,13 +1026,22 @@ class Node:
         if not predicate:
             raise ValueError("Predicate is required (use copy() instead)")
 
+        stopped = False
+
         def _visit(parent: Node) -> bool:
             """Return True if any descendant returned True."""
+            nonlocal stopped
             remove_nodes = []
             must_keep = False
 
             for n in parent.children:
-                res = call_predicate(predicate, n)
+                if stopped:
+                    res = False  # Keep only what was accepted before the stop
+                else:
+                    res = call_predicate(predicate, n)
+                    if isinstance(res, StopTraversal):
+                        stopped = True
+                        res = False
                 if res in (None, False):  # Keep only if has a `true` descendant
                     if _visit(n):
                         must_keep = True
